@@ -352,7 +352,51 @@ func ruleR29_3(c *Check) {
 	r.DomAll(ub, "flag cleared after the write loop was started", clear, 0, spawn, 0)
 }
 
+func ruleR29_4(c *Check) {
+	w := c.W
+	r := c.Rule("R29.4", "E1", 3, "when the table-id space is restarted (levelsController.nextFileID stored back to 1, as dropAll does) every success exit of that function afterwards passes Clear() of the block cache and of the index cache — both are keyed by table id — and the value-threshold reset, whatever the storage mode",
+		"a table flushed after the drop reuses the id of a dropped table: a cache entry of the dropped table that survived is served for the new one (wrong blocks, or — for encrypted tables — a stale index that crashes or hides keys); in-memory mode is no exception, its tables go through the same caches")
+	nf := w.Field("badger.levelsController.nextFileID")
+	bc, ic, th := w.Field("badger.DB.blockCache"), w.Field("badger.DB.indexCache"), w.Field("badger.DB.threshold")
+	clearOf := func(fld *types.Var) Sel {
+		return selPred("Clear("+fld.Name()+")", func(w *World, f *Fn, n ast.Node) bool {
+			call, ok := n.(*ast.CallExpr)
+			if !ok || !isCallNamed(w, call, "Clear") {
+				return false
+			}
+			rc := recvOf(call)
+			return rc != nil && w.fieldOf(rc) == fld
+		})
+	}
+	n := 0
+	for _, o := range allSites(w, "badger", selPred("nextFileID.Store(const)", func(w *World, f *Fn, nd ast.Node) bool {
+		fld, m, _, call := atomicOp(w, nd)
+		if fld != nf || m != "Store" || len(call.Args) != 1 {
+			return false
+		}
+		_, isC := w.constInt(call.Args[0])
+		return isC
+	})) {
+		n++
+		f := o.SiteFn
+		for _, fld := range []*types.Var{bc, ic, th} {
+			// Clear either follows the restart on every success path, or dominates it (cleared just before)
+			res := f.Followed(Occ{V: f.G().VertexOf(o.Node), Node: o.Node}, f.Occs(clearOf(fld), 0), exitSuccess)
+			if !res.OK {
+				res2 := f.Dominated(Occ{V: f.G().VertexOf(o.Node), Node: o.Node}, f.Occs(clearOf(fld), 0))
+				// a Clear before the restart only helps if nothing can return successfully in between without it: require it to dominate every success exit too
+				if res2.OK {
+					res = res2
+				}
+			}
+			r.Order(res, f, "id space restarted ⇒ "+fld.Name()+" cleared on every success path", o.Node, "after nextFileID is reset a success return is reachable without "+fld.Name()+".Clear()")
+		}
+	}
+	r.Exists(n >= 1, w.F("badger.DB.dropAll"), "id-space restart site", nil, "no constant store to levelsController.nextFileID (dropAll's restart)")
+}
+
 func propC29(c *Check) {
+	ruleR29_4(c)
 	ruleR29_1(c)
 	ruleR29_2(c)
 	ruleR29_3(c)
